@@ -23,12 +23,12 @@ def repo_root():
 
 
 class Module(object):
-  def __init__(self, rel, name, src):
+  def __init__(self, rel, name, src, tree=None):
     self.rel = rel
     self.name = name
     self.src = src
     self.lines = src.replace('\r', '').split('\n')
-    self.tree = ast.parse(src, rel)
+    self.tree = tree if tree is not None else ast.parse(src, rel)
     self.norm_stats = {}
     if os.environ.get('SA_NO_NORMALIZE') != '1':
       from .normalize import normalize_module
@@ -140,6 +140,7 @@ class Program(object):
     pkg = os.path.join(self.root, self.PACKAGE)
     if not os.path.isdir(pkg):
       raise AnchorMissing('package directory %s not found' % pkg, anchor=pkg)
+    raw = []
     for dp, dn, fn in os.walk(pkg):
       dn.sort()
       for f in sorted(fn):
@@ -153,11 +154,21 @@ class Program(object):
         if name.endswith('.__init__'):
           name = name[:-9]
         try:
-          m = Module(rel, name, src)
+          tree = ast.parse(src, rel)
         except SyntaxError as e:
           raise AnalysisError('syntax error in %s: %s' % (rel, e))
-        self.modules[rel] = m
-        self.by_name[name] = m
+        raw.append((rel, name, src, tree))
+    self.restore_stats = {}
+    if os.environ.get('SA_NO_NORMALIZE') != '1':
+      try:
+        from .restore import restore_package
+        restore_package(dict((rel, tree) for rel, _, _, tree in raw), self.restore_stats)
+      except Exception as e:   # restoration must never break the analysis
+        self.restore_stats['error'] = repr(e)
+    for rel, name, src, tree in raw:
+      m = Module(rel, name, src, tree)
+      self.modules[rel] = m
+      self.by_name[name] = m
     if os.environ.get('SA_NO_NORMALIZE') != '1':
       try:
         from .normalize import normalize_attrs, rename_pass
@@ -168,6 +179,11 @@ class Program(object):
             rename_pass(m.tree, rel)
       except Exception:
         pass
+      try:
+        from .restore import outline_package
+        outline_package(dict((rel, m.tree) for rel, m in self.modules.items()), self.restore_stats)
+      except Exception as e:
+        self.restore_stats['outline_error'] = repr(e)
     for m in self.modules.values():
       self._index_module(m)
     for c in self.all_classes:
